@@ -26,7 +26,7 @@ Val(j) == [ver |-> j.ver, ph |-> j.phase, fins |-> ToSet(j.fins), val |-> j.val,
 (* running since), no new output has to appear; clean-up of torn-down inputs goes on as always                                   *)
 (* destroyer: destroy.Controller for the input type runs as well: when the system is quiet no input is left that it is meant to *)
 (* remove (unowned, tearing down, without finalizers)                                                                            *)
-F0 == [fin |-> FALSE, ignoreTd |-> FALSE, ignoreUntil |-> FALSE, cleanup |-> FALSE, ctrl |-> "", skip |-> FALSE, keep |-> {}, destroyer |-> FALSE]
+F0 == [fin |-> FALSE, ignoreTd |-> FALSE, ignoreUntil |-> FALSE, cleanup |-> FALSE, ctrl |-> "", skip |-> FALSE, keep |-> {}, destroyer |-> FALSE, optional |-> FALSE]
 (* cleanup configuration: the dependents of input id are the outputs id and id + 10 *)
 Dependents(os, id) == {o \in DOMAIN os : o % 10 = id}
 Init == ins = Empty /\ outs = Empty /\ flags = F0 /\ l = 1 /\ tid = "" /\ bad = FALSE /\ exposed = {}
@@ -37,10 +37,13 @@ Keep == UNCHANGED <<flags, tid, bad>>
 Held(o) == "F" \in o.fins
 
 (* is a tearing-down input still treated as running by the controller's options? *)
+(* optional mapping (MapMetadataOptionalFunc of the driver): an input whose value is 3 is not mapped - it has no image *)
+Mapped(i) == ~flags.optional \/ i.val # 3
 TreatedRunning(i) ==
-  \/ i.ph = "running"
-  \/ flags.ignoreTd
-  \/ (flags.ignoreUntil /\ \E f \in i.fins : f # flags.ctrl)
+  /\ Mapped(i)
+  /\ \/ i.ph = "running"
+     \/ flags.ignoreTd
+     \/ (flags.ignoreUntil /\ \E f \in i.fins : f # flags.ctrl)
 
 (* C07 after a write, given the new maps *)
 FinViolations(ni, no) == {id \in DOMAIN no : no[id].owner = flags.ctrl /\ ~(id \in DOMAIN ni /\ flags.ctrl \in ni[id].fins)}
@@ -81,14 +84,18 @@ UnconvergedTransform ==
                  THEN (oe /\ (outs[id].ph = "running" \/ Held(outs[id]))) \/ (~oe /\ id \notin flags.keep)
                  ELSE (oe /\ ((outs[id].ph = "running" /\ outs[id].val = 10 * ins[id].val) \/ Held(outs[id])))
            /\ (~ie) => (~oe \/ Held(outs[id]))
-           /\ (ie /\ ~TreatedRunning(ins[id])) => ((~oe \/ Held(outs[id])) /\ (~oe => flags.ctrl \notin ins[id].fins)) )}
+           /\ (ie /\ ~TreatedRunning(ins[id])) => ((~oe \/ Held(outs[id])) /\ ((~oe /\ ins[id].ph = "tearingDown") => flags.ctrl \notin ins[id].fins)) )}
 Destroyable == {id \in DOMAIN ins : ins[id].ph = "tearingDown" /\ ins[id].fins = {} /\ ins[id].owner = ""}
 Unconverged == (IF flags.cleanup THEN UnconvergedCleanup ELSE UnconvergedTransform) \cup (IF flags.destroyer THEN Destroyable ELSE {})
 Quiet(e) ==
   IF Snap(e.ins) # ins \/ Snap(e.outs) # outs THEN Reject("write-log-incomplete", [ins |-> ins, outs |-> outs], [ins |-> Snap(e.ins), outs |-> Snap(e.outs)])
   ELSE IF Judge = "C06" /\ Unconverged # {}
   THEN LET id == IF Unconverged \ exposed # {} THEN CHOOSE x \in Unconverged \ exposed : TRUE ELSE CHOOSE x \in Unconverged : TRUE IN
-       Reject(IF flags.ignoreUntil /\ id \notin DOMAIN ins /\ id \in exposed THEN "not-converged-ignore-teardown-orphan" ELSE "not-converged",
+       Reject(IF flags.ignoreUntil /\ id \notin DOMAIN ins /\ id \in exposed THEN "not-converged-ignore-teardown-orphan"
+              ELSE IF flags.optional /\ id \in DOMAIN ins /\ ~Mapped(ins[id]) /\ ins[id].ph = "tearingDown" /\ flags.ctrl \in ins[id].fins
+                      /\ ~(id \in DOMAIN outs /\ outs[id].owner = flags.ctrl)
+                   THEN "finalizer-left-on-unmapped-input"
+              ELSE "not-converged",
               [id |-> id, input |-> IF id \in DOMAIN ins THEN ins[id] ELSE "absent"], IF id \in DOMAIN outs THEN outs[id] ELSE "absent")
   ELSE UNCHANGED <<ins, outs, exposed>> /\ Keep
 
@@ -96,7 +103,7 @@ Next == /\ l <= Len(TraceLog) /\ l' = l + 1
         /\ LET e == TraceLog[l] IN
              IF e.ev = "reset" THEN /\ ins' = Empty /\ outs' = Empty /\ tid' = e.tid /\ bad' = FALSE /\ exposed' = {}
                                     /\ flags' = [fin |-> e.fin, ignoreTd |-> e.ignoreTd, ignoreUntil |-> e.ignoreUntil, cleanup |-> e.cleanup, ctrl |-> e.ctrl,
-                                                  skip |-> FALSE, keep |-> {}, destroyer |-> ("destroyer" \in DOMAIN e /\ e.destroyer)]
+                                                  skip |-> FALSE, keep |-> {}, destroyer |-> ("destroyer" \in DOMAIN e /\ e.destroyer), optional |-> ("optional" \in DOMAIN e /\ e.optional)]
              ELSE IF bad THEN UNCHANGED <<ins, outs, flags, tid, bad, exposed>>
              ELSE CASE e.ev = "w" -> Write(e)
                     [] e.ev = "quiet" -> Quiet(e)
